@@ -25,8 +25,11 @@ static _Atomic int nthreads;
 static __thread int my_th;
 static __thread int in_drain;
 static int th(void) { if (!my_th) my_th = ++nthreads; return my_th; }
+static _Atomic int stop_rec;      // set before the dump: nothing is appended any more
+static _Atomic int drains_active; // manager passes between their BEGIN and END records
 static void lg(int kind, int t, uint64_t a, uint64_t b, uint64_t c, uint64_t d, uint64_t e)
 {
+	if (stop_rec) return;
 	unsigned i = atomic_fetch_add(&nlog, 1);
 	if (i < MAXLOG) LOG[i] = (struct ev){ kind, t, th(), a, b, c, d, e };
 }
@@ -138,6 +141,7 @@ void _dispatch_timer_unote_configure(dispatch_timer_source_refs_t dt)
 }
 void _dispatch_event_loop_drain_timers(dispatch_timer_heap_t dth, uint32_t count)
 {
+	drains_active++;
 	lg(E_DRAIN_BEGIN, 0, 0, 0, 0, 0, 0);
 	for (uint32_t i = 0; i < count; i++) lg(E_HEAPFLAGS, 0, i, dth[i].dth_needs_program, dth[i].dth_armed, dth[i].dth_count, 0);
 	in_drain = 1;
@@ -146,6 +150,7 @@ void _dispatch_event_loop_drain_timers(dispatch_timer_heap_t dth, uint32_t count
 	int n = nknown;
 	for (int i = 0; i < n; i++) snap(E_SNAP, KNOWN[i]);
 	lg(E_DRAIN_END, 0, dth[0].dth_dirty_bits != 0, 0, 0, 0, 0);
+	drains_active--;
 }
 
 // ---- the atomic hook: accesses of src/source.c (and the manager's load) to the two shared words of a tracked timer
@@ -240,7 +245,13 @@ int main(int argc, char **argv)
 	}
 	for (int i = 0; i < NS; i++) if (S[i].suspended) { dispatch_resume(S[i].ds); S[i].suspended = 0; }
 	usleep(250 * 1000);
+	// the dump must not cut a manager pass in two: wait until the manager is outside a pass (bounded: a pass is short; if
+	// one is still running after 5 s the record ends with an incomplete pass, which the replay recognises and does not
+	// compare), stop recording, and give writers that already reserved an entry time to fill it
+	for (int k = 0; k < 5000 && drains_active; k++) usleep(1000);
+	stop_rec = 1;
 	_dispatch_verif_cb = NULL;
+	usleep(50 * 1000);
 	unsigned n = nlog < MAXLOG ? nlog : MAXLOG;
 	for (unsigned i = 0; i < n; i++)
 		printf("%d %d %d %" PRIu64 " %" PRIu64 " %" PRIu64 " %" PRIu64 " %" PRIu64 "\n", LOG[i].kind, LOG[i].t, LOG[i].th,
